@@ -207,6 +207,25 @@ def structural(ctx, sw, w, label, raw, recips, inner, want, alg, other=None):
         muts.append(('append an unencrypted %s' % nm, raw + pkt))
         muts.append(('prepend an unencrypted %s' % nm, pkt + raw))
         muts.append(('unencrypted %s between session keys and data' % nm, allesk + pkt + sp))
+    # a packet re-tagged as a kind that PGPMessage takes without a key (modification detection code, marker, literal, compressed,
+    # signature, one-pass signature), as it stands and with a header that swallows the rest of the message written where a reader that
+    # ignores the declared length would stop (tag 19: 20 octets into the body) or at the first body octet.  (MDC.parse took 20 octets
+    # whatever the header declared: the single-bit flip C3 -> D3 of a passphrase session-key packet left ten random octets to be read
+    # as packets, and about one run in sixteen they opened a literal / marker packet: the message came back "not encrypted".)
+    swallow = [(b'\xac', 'old-format literal'), (b'\xaf', 'old-format literal, no length'), (b'\xcb\xff', 'new-format literal, five-octet length'),
+               (b'\xaa', 'old-format marker'), (b'\x2e', 'literal with bit 7 clear')]
+    for p in esks + [seipd]:
+        for newtag in (19, 11, 10, 8, 2, 4):
+            for off in (None, 0, 20):
+                for hb, hname in (swallow if off is not None else [(b'', '')]):
+                    if off is not None and p[2] + off + len(hb) > p[3]:
+                        continue
+                    mm = bytearray(raw)
+                    mm[p[1]] = 0xc0 | newtag
+                    if off is not None:
+                        mm[p[2] + off:p[2] + off + len(hb)] = hb
+                    muts.append(('tag %d packet at %d re-tagged %d%s' % (p[0], p[1], newtag, '' if off is None else ', %s header at body offset %d' % (hname, off)),
+                                 bytes(mm)))
     if len(esks) > 1:
         muts.append(('session keys reversed', b''.join(raw[p[1]:p[3]] for p in reversed(esks)) + sp))
         for p in esks:
